@@ -53,7 +53,7 @@ ITEMS = [
                  (r'i64::from_str\((l_str|r_str)\)\.map_err\(\|_\| Error::Overflow\)\?', r'vx_parse_i64(\1).map_err(|_e: ()| -> (e: Error) ensures e is Overflow { Error::Overflow })?', 2),
                  (r'r_str\.len\(\)\.try_into\(\)\.map_err\(\|_\| Error::Overflow\)\?', 'vx_len_u32(r_str).map_err(|_e: ()| -> (e: Error) ensures e is Overflow { Error::Overflow })?', 1),
                  (r'Error::TooManyDigits\(str\.as_ref\(\)\.to_string\(\)\)', 'vx_too_many(str)', 1),
-                 (r"l_str\.starts_with\('-'\)", 'vx_starts_with_minus(l_str)', 1),
+                 (r"l_str\.starts_with\('-'\)", 'vx_starts_with_minus(l_str)', None),
                  ClosureRw(r'value', 'value: i64', 'Self', ensures='d.value == value', rname='d', count=1)],
        ensures=[('no_match', 'vx_spec_caps(str) is None ==> r is Err'),
                 ('too_many_digits', 'vx_spec_caps(str) is Some && str_len(vx_spec_caps(str)->Some_0.1) > 4 ==> r is Err'),
